@@ -3,7 +3,8 @@
    return on every input; the fuel bound for a 5-lexeme input. *)
 From Coq Require Import List Arith NArith Bool Lia.
 From GV Require Import Base.Grammar Base.Analyses LR.Automaton LR.Validator LR.Spec
-  LR.Examples LR.TermSpec LR.TermGraph LR.TermProofs.
+  LR.Examples LR.TermSpec LR.TermGraph LR.TermProofs LR.TermValidated.
+From GV Require Import Base.GrammarFacts.
 Import ListNotations.
 
 Example calc_acyclic_b : acyclic_b calc_grammar = true.
@@ -33,3 +34,31 @@ Qed.
 (* 4 rules, productions of length <= 3, 5 lexemes *)
 Example calc_fuel : lr_fuel calc_grammar [4; 0; 4; 1; 4]%N = 25456%nat.
 Proof. vm_compute. reflexivity. Qed.
+
+(* the hypotheses of the validated form are satisfiable *)
+Example calc_productive : productive calc_grammar.
+Proof.
+  assert (Hp : forall p, (p < 7)%N -> is_prod calc_grammar p).
+  { intros p Hp. unfold is_prod. simpl. lia. }
+  assert (H3 : derives calc_grammar [R 3%N] (tokens_of [4%N]))
+    by exact (derives_prod calc_grammar 5%N (Hp 5%N eq_refl)).
+  assert (H2 : derives calc_grammar [R 2%N] (tokens_of [4%N])).
+  { eapply derives_trans; [exact (derives_prod calc_grammar 3%N (Hp 3%N eq_refl)) | exact H3]. }
+  assert (H1 : derives calc_grammar [R 1%N] (tokens_of [4%N])).
+  { eapply derives_trans; [exact (derives_prod calc_grammar 1%N (Hp 1%N eq_refl)) | exact H2]. }
+  assert (H0 : derives calc_grammar [R 0%N] (tokens_of [4%N])).
+  { eapply derives_trans; [exact (derives_prod calc_grammar 6%N (Hp 6%N eq_refl)) | exact H1]. }
+  intros r Hr. change (nrules calc_grammar) with 4%N in Hr. exists [4%N].
+  assert (Hc : r = 0%N \/ r = 1%N \/ r = 2%N \/ r = 3%N) by lia.
+  destruct Hc as [-> | [-> | [-> | ->]]]; assumption.
+Qed.
+
+Example calc_terminates_validated : forall input,
+  tokens_in_range calc_grammar input -> no_eof calc_grammar input ->
+  run calc_grammar calc_automaton (lr_fuel calc_grammar input) input <> ROutOfFuel.
+Proof.
+  intros input Hrng Hno.
+  destruct calc_table_valid as (HS & HC & HE & _).
+  exact (proj2 (lr_terminates_validated calc_grammar calc_automaton calc_wf HS HC HE
+                  calc_productive calc_acyclic input Hrng Hno)).
+Qed.
